@@ -151,3 +151,26 @@ pub fn c10(tier: Tier, seed: u64) -> i32 {
     rep.floor("foreign_array_probes", 300);
     rep.finish()
 }
+
+pub fn c11(tier: Tier, seed: u64) -> i32 {
+    use crate::monitors::c11::C11;
+    let mut rep = Report::new("C11", tier, seed);
+    rep.rule = "history workload with 1-3 rewards (SPL and Token-2022 mints), emission rates 0..2^128, clock steps 1s..10^9s, under-funded vaults, positions entering/leaving range: an exact shadow ledger distributes emissions x elapsed over the Position accounts in range in the state that held during each interval between reward-updating instructions; at every instruction that settles a position credited <= exact share and exact share - credited <= 1 + n_intervals*L/2^64 (intervals with dt*e >= 2^128 and amounts beyond 128/64 bits are exempt from the lower bound only); growth is never inflated, never moves with zero liquidity / uninitialized reward / unchanged timestamp; instructions with a clock earlier than the last update fail; collect_reward pays min(owed, vault) and keeps the rest; set_reward_emissions requires floor(86400*e/2^64) in the vault (probed with exactly that and one less on clones). distinct = (instruction, which rewards earned)".into();
+    rep.assumptions = vec![SVM_ASSUMPTION.into()];
+    let per_shard = tier.pick(18, 1800);
+    let acc = run_histories(
+        seed,
+        per_shard,
+        move |_r| HistCfg { ops: 150, spl_only: false, w_swap: 22, w_liq: 22, w_fees: 6, w_lifecycle: 3, w_clock: 6, w_setters: 1, w_reward: 40, ..Default::default() },
+        || vec![Box::new(C11::default()) as Box<dyn Monitor>],
+    );
+    rep.acc = acc;
+    rep.floor("reward_intervals_emitting", 2000);
+    rep.floor("position_settlements_with_earned_rewards", 500);
+    rep.floor("reward_collections", 300);
+    rep.floor("reward_collections_underfunded", 20);
+    rep.floor("emission_changes", 300);
+    rep.floor("funding_probes", 300);
+    rep.floor("earlier_timestamp_attempts", 50);
+    rep.finish()
+}
